@@ -1,4 +1,5 @@
-(* C16 - the five known finding classes, characterised (Props/C16.v, last part): non-vacuity.
+(* C16 - the five known finding classes, characterised (continuation of the last part of Props/C16.v; every proof is
+   `exact <lemma>`, Proofs/ComplFindings*.v): the further theorems per class, then non-vacuity.
    The theorems applied to the valid program of Proofs/ComplFindingsEx.v, and the model evaluated there independently
    of the theorems: the classification [proc_spec] against `propose` at every white-space position of a procedure. *)
 From Coq Require Import List PeanoNat NArith.
@@ -10,6 +11,223 @@ From Spl Require Import Proofs.ComplFindings Proofs.ComplFindingsClasses Proofs.
 From Spl Require Import Props.C16.
 Import ListNotations.
 Local Open Scope nat_scope.
+
+(* which tokens have one character: the punctuation has the length of its spelling, comments have two
+   characters or more *)
+Theorem C16_token_lengths : forall (t : text) (toks : list token),
+  lex t = Some toks ->
+  Forall (fun tok => match tk tok with
+                     | LParen | RParen | LBracket | RBracket | LCurly | RCurly | Colon | Comma | Semic => te tok = (ts tok + 1)%N
+                     | Assign => te tok = (ts tok + 2)%N
+                     | Comment _ => (ts tok + 2 <= te tok)%N
+                     | _ => True
+                     end) toks.
+Proof. exact lex_punctuation_lengths. Qed.
+Print Assumptions C16_token_lengths.
+
+(* directly behind `:=`: null (one column further, behind a blank, the answer is the variables) *)
+Theorem C16_directly_behind_assign : forall (p : aprog) (G : gtable) (t : text) (toks : list token) (d : doc),
+  prog_ok p = true -> well_typed (expected p) G ->
+  lex t = Some toks -> map tk toks = flatten p ++ [Eof] -> new_doc_res t = ODone d ->
+  forall l1 c1 c2 x c3 ps c4 c5 vs b1 s b2 c6 l2 g v ca e cb,
+    a_decls p = l1 ++ DProc c1 c2 x c3 ps c4 c5 vs (sapp b1 (SCons s b2)) c6 :: l2 ->
+    snest s g (SAsg v ca e cb) ->
+    forall tprev line col,
+      nth_error toks (stmt_index l1 c1 c2 x c3 ps c4 c5 vs b1 g + length (fl_var v) + length ca) = Some tprev ->
+      get_insertion_index line col t = te tprev ->
+      propose d line col = ROk None.
+Proof. exact propose_behind_assign. Qed.
+Print Assumptions C16_directly_behind_assign.
+
+(* directly behind the `(` of a call, of an `if`, of a `while` ([head_paren s' q]: token q of s' is that `(`): null *)
+Theorem C16_directly_behind_paren : forall (p : aprog) (G : gtable) (t : text) (toks : list token) (d : doc),
+  prog_ok p = true -> well_typed (expected p) G ->
+  lex t = Some toks -> map tk toks = flatten p ++ [Eof] -> new_doc_res t = ODone d ->
+  forall l1 c1 c2 x c3 ps c4 c5 vs b1 s b2 c6 l2 g s',
+    a_decls p = l1 ++ DProc c1 c2 x c3 ps c4 c5 vs (sapp b1 (SCons s b2)) c6 :: l2 ->
+    snest s g s' ->
+    forall q tprev line col,
+      head_paren s' q ->
+      nth_error toks (stmt_index l1 c1 c2 x c3 ps c4 c5 vs b1 g + q) = Some tprev ->
+      get_insertion_index line col t = te tprev ->
+      propose d line col = ROk None.
+Proof. exact propose_behind_paren. Qed.
+Print Assumptions C16_directly_behind_paren.
+
+(* directly behind the `;` that ends an assignment or a call ([vars_from s' q]: s' is an assignment / a call, q
+   the index of its `:=` / `(`): the position is inside that statement - the variables only, although it is
+   the start of the next statement *)
+Theorem C16_directly_behind_statement_semic : forall (p : aprog) (G : gtable) (t : text) (toks : list token) (d : doc),
+  prog_ok p = true -> well_typed (expected p) G ->
+  lex t = Some toks -> map tk toks = flatten p ++ [Eof] -> new_doc_res t = ODone d ->
+  forall l1 c1 c2 x c3 ps c4 c5 vs b1 s b2 c6 l2 g s',
+    a_decls p = l1 ++ DProc c1 c2 x c3 ps c4 c5 vs (sapp b1 (SCons s b2)) c6 :: l2 ->
+    snest s g s' ->
+    forall q tprev line col,
+      vars_from s' q ->
+      nth_error toks (stmt_index l1 c1 c2 x c3 ps c4 c5 vs b1 g + length (fl_stmt s') - 1) = Some tprev ->
+      get_insertion_index line col t = te tprev ->
+      exists pe, lookup G x = Some (GProcE pe) /\ map fst (pe_local pe) = aparams_names ps ++ map v_x vs /\
+        propose d line col = ROk (Some (search_variables (pe_local pe))).
+Proof. exact propose_behind_stmt_semic. Qed.
+Print Assumptions C16_directly_behind_statement_semic.
+
+(* directly behind the `{` (token |ca| of the block) or the `}` (its last token) of a block statement: the statement
+   proposals - what C16 prescribes there - with the `else` starters in front in some cases ([else_or_not]) *)
+Theorem C16_directly_behind_block_brace : forall (p : aprog) (G : gtable) (t : text) (toks : list token) (d : doc),
+  prog_ok p = true -> well_typed (expected p) G ->
+  lex t = Some toks -> map tk toks = flatten p ++ [Eof] -> new_doc_res t = ODone d ->
+  forall l1 c1 c2 x c3 ps c4 c5 vs b1 s b2 c6 l2 g ca b cb,
+    a_decls p = l1 ++ DProc c1 c2 x c3 ps c4 c5 vs (sapp b1 (SCons s b2)) c6 :: l2 ->
+    snest s g (SBlk ca b cb) ->
+    forall m tprev line col,
+      m = length ca \/ m = length (fl_stmt (SBlk ca b cb)) - 1 ->
+      nth_error toks (stmt_index l1 c1 c2 x c3 ps c4 c5 vs b1 g + m) = Some tprev ->
+      get_insertion_index line col t = te tprev ->
+      exists pe pre, lookup G x = Some (GProcE pe) /\ map fst (pe_local pe) = aparams_names ps ++ map v_x vs /\
+        else_or_not pre /\ propose d line col = ROk (Some (pre ++ new_stmt (Some (pe_local pe)) G)).
+Proof. exact propose_behind_block_brace. Qed.
+Print Assumptions C16_directly_behind_block_brace.
+
+(* directly behind the closing brace of a procedure whose body holds a statement other than `;`: still inside the
+   procedure - the statement proposals with ITS variables, not the declaration starters *)
+Theorem C16_directly_behind_procedure_end : forall (p : aprog) (G : gtable) (t : text) (toks : list token) (d : doc),
+  prog_ok p = true -> well_typed (expected p) G ->
+  lex t = Some toks -> map tk toks = flatten p ++ [Eof] -> new_doc_res t = ODone d ->
+  forall l1 c1 c2 x c3 ps c4 c5 vs b c6 l2,
+    a_decls p = l1 ++ DProc c1 c2 x c3 ps c4 c5 vs b c6 :: l2 ->
+    forall tprev line col,
+      has_real b = true ->
+      nth_error toks (length (flat_map fl_decl l1) + length (fl_decl (DProc c1 c2 x c3 ps c4 c5 vs b c6)) - 1) = Some tprev ->
+      get_insertion_index line col t = te tprev ->
+      exists pe, lookup G x = Some (GProcE pe) /\ map fst (pe_local pe) = aparams_names ps ++ map v_x vs /\
+        propose d line col = ROk (Some (new_stmt (Some (pe_local pe)) G)).
+Proof. exact propose_behind_proc_rcurly. Qed.
+Print Assumptions C16_directly_behind_procedure_end.
+
+(* directly behind a token of the header, of the variable declarations or of the leading `;` statements (token m lies
+   in front of the first statement other than `;`): the answer is read off the kind of `token_before` alone - behind
+   `:` (one character: last is the identifier in front of it) null, behind `of` the types, behind `{` / `;` null
+   ([sig_answer], [decl_answer]: see [C16_declaration_answers]) *)
+Theorem C16_directly_behind_declaration_token : forall (p : aprog) (G : gtable) (t : text) (toks : list token) (d : doc),
+  prog_ok p = true -> well_typed (expected p) G ->
+  lex t = Some toks -> map tk toks = flatten p ++ [Eof] -> new_doc_res t = ODone d ->
+  forall l1 c1 c2 x c3 ps c4 c5 vs b c6 l2,
+    a_decls p = l1 ++ DProc c1 c2 x c3 ps c4 c5 vs b c6 :: l2 ->
+    forall m tprev last line col,
+      (length (flat_map fl_decl l1) <= m)%nat ->
+      (m < length (flat_map fl_decl l1) + length (fl_decl (DProc c1 c2 x c3 ps c4 c5 vs b c6)))%nat ->
+      match first_real b (length (flat_map fl_decl l1) + length (proc_head c1 c2 x c3 ps c4 c5) + length (flat_map fl_vardecl vs)) with
+      | Some r => (m < r)%nat
+      | None => True
+      end ->
+      nth_error toks m = Some tprev -> get_insertion_index line col t = te tprev ->
+      ((ts tprev + 1 < te tprev)%N /\ last = tprev \/
+       (ts tprev + 1 = te tprev)%N /\ (length (flat_map fl_decl l1) < m)%nat /\ nth_error toks (m - 1) = Some last) ->
+      exists pe, lookup G x = Some (GProcE pe) /\ map fst (pe_local pe) = aparams_names ps ++ map v_x vs /\
+        propose d line col =
+          ROk (render (Some (pe_local pe)) G
+                 (if m <? length (flat_map fl_decl l1) + length (proc_sig c1 c2 x c3 ps c4)
+                  then sig_answer (tk last) else decl_answer (tk last))).
+Proof. exact propose_behind_decl_part. Qed.
+Print Assumptions C16_directly_behind_declaration_token.
+
+Theorem C16_declaration_answers : forall k,
+  sig_answer k = match k with LParen | Comma => ARef | Colon | KOf => ATypes | _ => ANull end /\
+  decl_answer k = match k with Colon | KOf => ATypes | Semic | LCurly => AVarStmt | _ => ANull end.
+Proof. exact (fun k => conj eq_refl eq_refl). Qed.
+Print Assumptions C16_declaration_answers.
+
+(* ... and directly behind a token of a TYPE declaration: the kind of `token_before` decides as in the gaps
+   ([C16_type_decl_position]) - behind the `;` that ends the declaration last is the type name in front of it: null *)
+Theorem C16_directly_behind_type_decl_token : forall (p : aprog) (G : gtable) (t : text) (toks : list token) (d : doc),
+  prog_ok p = true -> well_typed (expected p) G ->
+  lex t = Some toks -> map tk toks = flatten p ++ [Eof] -> new_doc_res t = ODone d ->
+  forall l1 c1 c2 x c3 ty c4 l2,
+    a_decls p = l1 ++ DType c1 c2 x c3 ty c4 :: l2 ->
+    let dd := DType c1 c2 x c3 ty c4 in
+    let D := length (flat_map fl_decl l1) in
+    forall m tprev last line col,
+      (D <= m)%nat -> (m < D + length (fl_decl dd))%nat ->
+      nth_error toks m = Some tprev -> get_insertion_index line col t = te tprev ->
+      ((ts tprev + 1 < te tprev)%N /\ last = tprev \/
+       (ts tprev + 1 = te tprev)%N /\ (D < m)%nat /\ nth_error toks (m - 1) = Some last) ->
+      propose d line col =
+        ROk (match tk last with
+             | RBracket => Some [item_of]
+             | EqT | KOf => Some ([snip_array; item_array] ++ search_types G)
+             | _ => None
+             end).
+Proof. exact propose_type_decl_behind. Qed.
+Print Assumptions C16_directly_behind_type_decl_token.
+
+(* type positions and everything else in front of the first statement other than `;` (header, variable declarations,
+   leading `;`, the comments in front of the closing brace of a body without such a statement): null - behind
+   `:` + comment no type is proposed *)
+Theorem C16_comment_before_cursor_declaration : forall (p : aprog) (G : gtable) (t : text) (toks : list token) (d : doc),
+  prog_ok p = true -> well_typed (expected p) G ->
+  lex t = Some toks -> map tk toks = flatten p ++ [Eof] -> new_doc_res t = ODone d ->
+  forall l1 c1 c2 x c3 ps c4 c5 vs b c6 l2,
+    a_decls p = l1 ++ DProc c1 c2 x c3 ps c4 c5 vs b c6 :: l2 ->
+    forall m tprev tnext line col,
+      (length (flat_map fl_decl l1) <= m)%nat ->
+      (S m < length (flat_map fl_decl l1) + length (fl_decl (DProc c1 c2 x c3 ps c4 c5 vs b c6)))%nat ->
+      match first_real b (length (flat_map fl_decl l1) + length (proc_head c1 c2 x c3 ps c4 c5) + length (flat_map fl_vardecl vs)) with
+      | Some r => (m < r)%nat
+      | None => True
+      end ->
+      nth_error toks m = Some tprev -> nth_error toks (S m) = Some tnext -> is_comment (tk tprev) = true ->
+      (te tprev <= get_insertion_index line col t)%N -> (get_insertion_index line col t <= ts tnext)%N ->
+      propose d line col = ROk None.
+Proof. exact propose_comment_decl_part. Qed.
+Print Assumptions C16_comment_before_cursor_declaration.
+
+(* behind a comment in front of the closing brace of the procedure (comment i of the slot c6): the statement
+   proposals iff the body holds a statement other than `;` *)
+Theorem C16_comment_before_cursor_procedure_end : forall (p : aprog) (G : gtable) (t : text) (toks : list token) (d : doc),
+  prog_ok p = true -> well_typed (expected p) G ->
+  lex t = Some toks -> map tk toks = flatten p ++ [Eof] -> new_doc_res t = ODone d ->
+  forall l1 c1 c2 x c3 ps c4 c5 vs b c6 l2,
+    a_decls p = l1 ++ DProc c1 c2 x c3 ps c4 c5 vs b c6 :: l2 ->
+    let j := (length (flat_map fl_decl l1) + length (proc_head c1 c2 x c3 ps c4 c5) + length (flat_map fl_vardecl vs)
+              + length (fl_stmts b))%nat in
+    forall i tprev tnext line col,
+      (i < length c6)%nat ->
+      nth_error toks (j + i) = Some tprev -> nth_error toks (S (j + i)) = Some tnext ->
+      (te tprev <= get_insertion_index line col t)%N -> (get_insertion_index line col t <= ts tnext)%N ->
+      exists pe, lookup G x = Some (GProcE pe) /\ map fst (pe_local pe) = aparams_names ps ++ map v_x vs /\
+        propose d line col = ROk (if has_real b then Some (new_stmt (Some (pe_local pe)) G) else None).
+Proof. exact propose_comment_proc_end. Qed.
+Print Assumptions C16_comment_before_cursor_procedure_end.
+
+Theorem C16_text_start_blank : forall (p : aprog) (G : gtable) (t : text) (toks : list token) (d : doc),
+  prog_ok p = true -> well_typed (expected p) G ->
+  lex t = Some toks -> map tk toks = flatten p ++ [Eof] -> new_doc_res t = ODone d ->
+  forall first line col,
+    nth_error toks 0 = Some first -> (0 < ts first)%N -> get_insertion_index line col t = 0%N ->
+    propose d line col = ROk (Some [snip_proc; snip_type; item_proc; item_type]).
+Proof. exact propose_text_start_blank. Qed.
+Print Assumptions C16_text_start_blank.
+
+(* ... and the whole picture for assignments and calls: every gap between two tokens of the statement: null left of
+   the `:=` / the `(` (token q), exactly the variables right of it - the EXPRESSION positions of C16 (the class
+   PExpr of [position_class]), which the theorems (S), (S'), (T), (G) do not cover *)
+Theorem C16_assignment_call_positions : forall (p : aprog) (G : gtable) (t : text) (toks : list token) (d : doc),
+  prog_ok p = true -> well_typed (expected p) G ->
+  lex t = Some toks -> map tk toks = flatten p ++ [Eof] -> new_doc_res t = ODone d ->
+  forall l1 c1 c2 x c3 ps c4 c5 vs b1 s b2 c6 l2 g s',
+    a_decls p = l1 ++ DProc c1 c2 x c3 ps c4 c5 vs (sapp b1 (SCons s b2)) c6 :: l2 ->
+    snest s g s' ->
+    forall q i tprev tnext line col,
+      vars_from s' q ->
+      (S i < length (fl_stmt s'))%nat ->
+      nth_error toks (stmt_index l1 c1 c2 x c3 ps c4 c5 vs b1 g + i) = Some tprev ->
+      nth_error toks (S (stmt_index l1 c1 c2 x c3 ps c4 c5 vs b1 g + i)) = Some tnext ->
+      (te tprev < get_insertion_index line col t)%N -> (get_insertion_index line col t <= ts tnext)%N ->
+      exists pe, lookup G x = Some (GProcE pe) /\ map fst (pe_local pe) = aparams_names ps ++ map v_x vs /\
+        propose d line col = ROk (if i <? q then None else Some (search_variables (pe_local pe))).
+Proof. exact propose_simple_stmt_position. Qed.
+Print Assumptions C16_assignment_call_positions.
 
 (* ---- non-vacuity: the theorems applied to the valid program of Proofs/ComplFindingsEx.v (byte index in front) ----
        0  type v = array [2] of int;
